@@ -392,6 +392,7 @@ def pyIntOf : PyVal → Res Int
   | .text s => if !isAscii s then .error .unmodelled else
       match pyInt s with | some z => .ok z | none => .error .valueError
   | .float _ => .error .unmodelled
+  | .typed _ => .error .unmodelled      -- int(vText(..)), int(vFloat(..)), ...: by the base class of the object
   | _ => .error .typeError
 
 /-- vText / vUri / vCalAddress / vInline: `str.__new__(cls, value)`; only vText escapes in `to_ical` -/
